@@ -73,6 +73,38 @@ JMesh(r) ==
               Cardinality(ArgMinFaces(r.qs[j], vp, r.faces)) = 1 =>
                   PointMoved(T, o.c0[j].p, o.c1[j].p, TP) /\ DirRotated(T, o.c0[j].n, o.c1[j].n, TN))
 
+\* the optional `transform` argument (u1/p1/i1: query given in the other frame plus T) and a mesh moved by hand
+\* (u2/p2/i2) must agree with the plain query (u0/p0/i0); deviations are invariant
+JMeshOpt(r) ==
+    LET o == r.out T == r.T vp == DblSeq(r.vpos) n == Len(r.qs) IN
+    /\ Clause(i, "C03.meshopt.finite", o.finite)
+    /\ Clause(i, "C03.meshopt.shape", Len(o.rows) = n)
+    /\ Len(o.rows) = n =>
+        /\ Clause(i, "C03.meshopt.indices_in_tol_same", o.i0 = o.i1 /\ o.i0 = o.i2)
+        /\ ClauseAll(i, "C03.meshopt.accepted_alike", 1..n, LAMBDA j : LET w == o.rows[j] IN
+              w.u0.some = w.u1.some /\ w.u0.some = w.u2.some /\ w.p0.some = w.p1.some /\ w.p0.some = w.p2.some /\ w.u0.some = w.p0.some)
+        /\ ClauseAll(i, "C03.meshopt.uv_and_depth_invariant", 1..n, LAMBDA j : LET w == o.rows[j] IN
+              (Cardinality(ArgMinFaces(r.qs[j], vp, r.faces)) = 1 /\ w.u0.some /\ w.u1.some /\ w.u2.some) =>
+                  /\ \A a \in 1..2 : ScalarSame(w.u0.uv[a], w.u1.uv[a], TP) /\ ScalarSame(w.u0.uv[a], w.u2.uv[a], TP)
+                  /\ ScalarSame(w.u0.depth, w.u1.depth, TS) /\ ScalarSame(w.u0.depth, w.u2.depth, TS))
+        /\ ClauseAll(i, "C03.meshopt.projection_equivariant", 1..n, LAMBDA j : LET w == o.rows[j] IN
+              (Cardinality(ArgMinFaces(r.qs[j], vp, r.faces)) = 1 /\ w.p0.some /\ w.p1.some /\ w.p2.some) =>
+                  /\ w.p0.id = w.p1.id /\ w.p0.id = w.p2.id
+                  /\ \A a \in 1..3 : AbsC(w.p0.p[a] - w.p1.p[a]) <= TP
+                  /\ PointMoved(T, w.p0.p, w.p2.p, TP))
+        /\ ClauseAll(i, "C03.meshopt.deviation_invariant", 1..n, LAMBDA j : LET w == o.rows[j] IN
+              Cardinality(ArgMinFaces(r.qs[j], vp, r.faces)) = 1 =>
+                  /\ ScalarSame(w.d0.pt, w.d2.pt, TS) /\ ScalarSame(w.d0.pl, w.d2.pl, TS)
+                  /\ PointMoved(T, w.d0.a, w.d2.a, TP) /\ PointMoved(T, w.d0.b, w.d2.b, TP))
+
+\* a counter-clockwise outline built from moved points is the moved outline; the generic point transform moves points
+JCcw(r) ==
+    LET o == r.out T == r.T IN
+    /\ Clause(i, "C03.ccw.finite", o.finite)
+    /\ Clause(i, "C03.ccw.same_outcome", o.e0.ok = o.e1.ok /\ o.e0.closed = o.e1.closed)
+    /\ Clause(i, "C03.ccw.vertices_move", SeqMoved(T, o.e0.verts, o.e1.verts, TP))
+    /\ Clause(i, "C03.points.transform_points", SeqMoved(T, o.in, o.g0, TP))
+
 JCloud(r) ==
     LET o == r.out T == r.T IN
     /\ Clause(i, "C03.cloud.points_move", SeqMoved(T, o.p0, o.p1, TP) /\ SeqNear(o.p1, o.pm, 1))
@@ -87,7 +119,7 @@ JDist(r) ==
 Judge(r) ==
     /\ Sane(i, r)
     /\ Ran(r) =>
-        CASE r.op = "sp" -> JSp(r) [] r.op = "curve" -> JCurve(r) [] r.op = "seg" -> JSeg(r) [] r.op = "mesh" -> JMesh(r)
+        CASE r.op = "sp" -> JSp(r) [] r.op = "curve" -> JCurve(r) [] r.op = "seg" -> JSeg(r) [] r.op = "mesh" -> JMesh(r) [] r.op = "meshopt" -> JMeshOpt(r) [] r.op = "ccw" -> JCcw(r)
           [] r.op = "cloud" -> JCloud(r) [] r.op = "dist" -> JDist(r) [] r.op = "reset" -> TRUE [] OTHER -> Clause(i, "unknown-op", FALSE)
 Init == i = 1
 Next == i <= Len(Rec) /\ Judge(Rec[i]) /\ i' = i + 1
